@@ -49,6 +49,12 @@ def run_batch(items):
     try:
         ins = {id(x) for x in sv.select(':in-range', soup)}
         outs = {id(x) for x in sv.select(':out-of-range', soup)}
+        # both questions about one element inside one call (either order, nested): same answers as asked separately
+        comb = [({id(x) for x in sv.select(':in-range, :out-of-range', soup)}, lambda i, o: i or o, 'in-or-out list'),
+                ({id(x) for x in sv.select(':out-of-range, :in-range', soup)}, lambda i, o: i or o, 'out-or-in list'),
+                ({id(x) for x in sv.select(':out-of-range:not(:in-range)', soup)}, lambda i, o: o and not i, 'out-and-not-in'),
+                ({id(x) for x in sv.select(':not(:out-of-range):in-range', soup)}, lambda i, o: i and not o, 'not-out-and-in'),
+                ({id(x) for x in sv.select(':in-range:out-of-range', soup)}, lambda i, o: i and o, 'in-and-out')]
     except Exception as e:  # noqa: BLE001
         if len(items) == 1:
             return ['raises-' + type(e).__name__]
@@ -56,7 +62,12 @@ def run_batch(items):
     res = []
     for e in els:
         i, o = id(e) in ins, id(e) in outs
-        res.append('both' if i and o else 'in' if i else 'out' if o else 'neither')
+        st = 'both' if i and o else 'in' if i else 'out' if o else 'neither'
+        for got_set, rule, what in comb:
+            if (id(e) in got_set) != bool(rule(i, o)):
+                st += f' (asked separately), but the {what} selector ' + ('has' if id(e) in got_set else 'lacks') + ' it'
+                break
+        res.append(st)
     return res
 
 
